@@ -213,6 +213,7 @@ class HResult:
     funcs: list = field(default_factory=list)
     program_size: int = 0
     vccs: int = 0
+    bound_failed: bool = False
 
 
 class Ctx:
@@ -369,13 +370,19 @@ def run_harness(ctx, h):
     if nobody:
         # a reachable call without a body silently returns nondet: never accept that implicitly
         res.status, res.note = "error", "reachable functions without body (add the real source or an explicit stub): " + ",".join(sorted(set(nobody)))
-    elif unwind_fail:
+    elif unwind_fail and not res.failed:
         res.status = "bound"
         res.note = "unwinding assertion failed: " + "; ".join(
             "%s@%s:%s" % (u["property"], u["file"], u["line"]) for u in unwind_fail[:4])
-        res.failed = unwind_fail + res.failed
+        res.failed = unwind_fail
     elif res.failed:
+        # real failures take precedence over a simultaneously failing unwinding assertion (memory corruption
+        # can make loop bounds symbolic); they still have to reproduce natively to be reported
         res.status = "violation"
+        if unwind_fail:
+            res.note = "also: unwinding assertion failed: " + "; ".join(
+                "%s@%s:%s" % (u["property"], u["file"], u["line"]) for u in unwind_fail[:4])
+            res.bound_failed = True
     elif unknown:
         res.status, res.note = "inconclusive", "%d properties with status %s" % (len(unknown), unknown[0]["status"])
     elif not res.witness_ok:
@@ -509,7 +516,7 @@ def load_ub_baseline():
 def ub_match(item, base):
     f = os.path.basename(item["file"])
     for bf, bfn, bcls, bdesc in base:
-        if bf == f and (bfn == "*" or bfn == item["function"]) and (bcls == "*" or bcls == item["cls"]) \
+        if bf == f and (bfn == "*" or bfn == item["function"]) and (bcls == "*" or bcls == item["cls"] or bcls.replace("_", " ") == item["cls"]) \
                 and bdesc in item["description"]:
             return True
     return False
@@ -595,6 +602,8 @@ def run_property(pid, harnesses, tier, seed, level="model_checking", assumptions
                     ub_new.append(it)
                 else:
                     broken.append((h.name, "replay-" + st, "%s (%s): %s" % (it["description"], it["property"], msg[-300:])))
+            if not reproduced and r.bound_failed:
+                broken.append((h.name, "bound", r.note))
             if reproduced:
                 r.status = "violation"
             elif all(i.get("replay_status") == "not-reproduced" and i in ub_new for i in real_fail[:done]):
